@@ -21,4 +21,5 @@ META = {
 
 def check(ctx):
     sampling.check(ctx)
+    sampling.mps_sample_gauge(ctx)
     ctx.floor("KWSWAP", 8)
